@@ -83,6 +83,7 @@ def oracle(ctx, seeds, scale):
         for nm in ('x', 'yy', 'foo', 'emph', 'ref'):
             d = d.replace('\\' + nm + '{', '\\' + nm + rg.choice(seps) + '{').replace('\\' + nm + '[', '\\' + nm + rg.choice(seps) + '[')
         strs.append(d)
+    strs += gen.padded_env_docs()
     docs = gen.corpus()
     strs += docs
     for d in docs[:40]:
